@@ -219,6 +219,13 @@ def monitor_line(op, ans):
     return None
 
 
+def generate():
+    """(re)write every Gen/ file this property's Lean modules import, from the current /repo tree"""
+    fmts, sites = gen_formats.collect(vlib.REPO)
+    vlib.gen_write("AsmjitVerif/Gen/FormatsInUse.lean", gen_formats.render(fmts, sites))
+    return fmts
+
+
 def run(res):
     rng = vlib.rng_for(res.seed, PID)
     res.assumptions += ["Support::loadu/storeu little-endian = byte list semantics",
@@ -228,8 +235,7 @@ def run(res):
 
     # -- L2a translator: formats constructed by the current sources ---------------------------------
     try:
-        fmts, sites = gen_formats.collect(vlib.REPO)
-        vlib.gen_write("AsmjitVerif/Gen/FormatsInUse.lean", gen_formats.render(fmts, sites))
+        fmts = generate()
     except gen_formats.TranslateError as e:
         broken.append("translator gen_formats: " + str(e))
         fmts = []
